@@ -58,6 +58,24 @@ func c03Statements(seed int64, thorough bool) []stmt {
 		}
 	}
 	add("", []int{200, 3}, 12, 13)
+	// single openings of monomials X^k at 0 (and at 1): the quotient X^(k-1) has evaluations i^(k-1) of up to
+	// 64, 128 and 192 bits — short scalars whose top window is above half the window range reach the table MSM
+	for _, k := range []int{9, 17, 25} {
+		v := make([]*big.Int, 256)
+		for i := range v {
+			v[i] = new(big.Int).Exp(bi(int64(i)), bi(int64(k)), bigR)
+		}
+		mono := namedPoly{fmt.Sprintf("x^%d", k), v}
+		out = append(out, stmt{label: "vt", zs: []int{0}, polys: []namedPoly{mono}})
+		if thorough {
+			out = append(out, stmt{label: "vt", zs: []int{1}, polys: []namedPoly{mono}})
+		}
+	}
+	// the same commitment opened at several, non-adjacent positions (the unit also hands them in as ONE
+	// shared pointer in a projective representation)
+	add("vt", []int{1, 2, 3}, 12, 13, 12)
+	add("vt", []int{1, 2, 3, 1}, 12, 12, 13, 12)
+	add("vt", []int{5, 6, 5, 6, 7}, 12, 13, 12, 13, 10)
 	add("multiproof", []int{77, 77, 78, 200}, 8, 10, 11, 12)
 	// more openings than 1024 pending transcript bytes (n >= 11) and more than the worker count
 	sz := []int{11, 17}
@@ -179,6 +197,26 @@ func c03Units(ctx *core.Ctx) []core.Unit {
 					st.reprs[i] = (k + i) % nRepr
 				}
 				check("commitments re-represented "+fmt.Sprint(st.reprs), st)
+			}
+			// openings of the same polynomial handed in through one shared *Element (all representations)
+			{
+				names := map[string]int{}
+				rep := false
+				for _, p := range s.polys {
+					names[p.Name]++
+					rep = rep || names[p.Name] > 1
+				}
+				if rep {
+					for k := 0; k < nRepr; k++ {
+						st := s
+						st.share = make([]int, len(s.zs))
+						st.reprs = make([]int, len(s.zs))
+						for i := range st.share {
+							st.share[i], st.reprs[i] = 1, k
+						}
+						check(fmt.Sprintf("repeated commitments through one shared pointer, representation %d", k), st)
+					}
+				}
 			}
 			// after unrelated earlier calls
 			polys := polyAlphabet(ctx.Seed)
